@@ -77,3 +77,67 @@ pub fn havoc_loop_target(v: &mut Vec<Posting>)
         final(v)@.len() == old(v)@.len(),
         forall|i: int| 0 <= i < old(v)@.len() ==> (#[trigger] final(v)@[i]).account == old(v)@[i].account && final(v)@[i].amount == old(v)@[i].amount,
 { unimplemented!() }
+
+// compute_from_syntax as a deterministic function of the written posting amount and the context (its glue body is L1)
+pub uninterp spec fn computed_of(sa: syntax::tracked::PostingAmount, ctx: ReportContext) -> Result<ComputedPosting, BookKeepError>;
+pub uninterp spec fn computed_ctx(sa: syntax::tracked::PostingAmount, ctx: ReportContext) -> ReportContext;
+
+// C02: what `= X` asserts about an account's holdings h (absent commodity = 0; bare `= 0` = nothing held at all)
+pub open spec fn assertion_holds(h: Map<Commodity, real>, expected: PostingAmount) -> bool {
+    match expected { PostingAmount::Zero => all_zero(h), PostingAmount::Single(s) => mget(h, s.commodity) == s.v() }
+}
+// C03: `Account = X` with no amount: the posting receives X minus what the account holds in that commodity
+// (bare `= 0`: minus its whole single-commodity holding) and the account is left at X
+pub open spec fn assigned_amount_ok(h: Map<Commodity, real>, x: PostingAmount, amt: PostingAmount) -> bool {
+    match x {
+        PostingAmount::Single(s) => amt matches PostingAmount::Single(a) && a.commodity == s.commodity && a.v() == s.v() - mget(h, s.commodity),
+        PostingAmount::Zero =>
+            if h.dom().len() == 0 { amt is Zero }
+            else { amt matches PostingAmount::Single(a) && h == Map::<Commodity, real>::empty().insert(a.commodity, -a.v()) },
+    }
+}
+pub open spec fn assigned_holdings(h: Map<Commodity, real>, x: PostingAmount) -> Map<Commodity, real> {
+    match x {
+        PostingAmount::Single(s) => if s.v() == 0real { h.remove(s.commodity) } else { h.insert(s.commodity, s.v()) },
+        PostingAmount::Zero => Map::empty(),
+    }
+}
+
+// ---- add_transaction vocabulary ----
+pub open spec fn unconstrained(p: syntax::tracked::Posting) -> bool { p.amount is None && p.balance is None }
+pub open spec fn count_unc(posts: Seq<Tracked<syntax::tracked::Posting>>, n: int) -> int
+    decreases n
+{
+    if n <= 0 { 0 } else { count_unc(posts, n - 1) + (if unconstrained(posts[n - 1].value) { 1int } else { 0int }) }
+}
+// sum of balancing values, per commodity (zero entries retained)
+pub open spec fn sum_deltas(d: Seq<PostingAmount>) -> Map<Commodity, real>
+    decreases d.len()
+{
+    if d.len() == 0 { Map::empty() } else { add_pa(sum_deltas(d.drop_last()), d.last()) }
+}
+pub proof fn lemma_count_unc_mono(posts: Seq<Tracked<syntax::tracked::Posting>>, i: int, n: int)
+    requires 0 <= i <= n <= posts.len(),
+    ensures count_unc(posts, i) <= count_unc(posts, n),
+    decreases n - i
+{
+    if i < n { lemma_count_unc_mono(posts, i, n - 1); }
+}
+
+// the one posting without amount and assertion received exactly `m`
+pub open spec fn deduced_posting_is(out: Seq<Posting>, posts: Seq<Tracked<syntax::tracked::Posting>>, m: Map<Commodity, real>) -> bool {
+    exists|u: int| 0 <= u < out.len() && u < posts.len() && unconstrained(posts[u].value) && #[trigger] out[u].amount@ == m
+}
+// C01/C03 acceptance condition of a transaction whose postings contributed the balancing values `deltas`
+pub open spec fn accepted_with(ctx: &ReportContext, out: Seq<Posting>, posts: Seq<Tracked<syntax::tracked::Posting>>, deltas: Seq<PostingAmount>) -> bool {
+    &&& deltas.len() == posts.len()
+    &&& forall|j: int| 0 <= j < deltas.len() && unconstrained(posts[j].value) ==> #[trigger] deltas[j] is Zero
+    // a single posting with an omitted amount absorbs the remainder: exactly the negated sum of the others' balancing values
+    &&& (count_unc(posts, posts.len() as int) == 1 ==> deduced_posting_is(out, posts, mneg(sum_deltas(deltas))))
+    // otherwise the rounded per-commodity totals balance
+    &&& (count_unc(posts, posts.len() as int) == 0 ==> balanced(rounded(ctx, sum_deltas(deltas))))
+}
+
+pub open spec fn accepted(ctx: &ReportContext, out: Seq<Posting>, posts: Seq<Tracked<syntax::tracked::Posting>>) -> bool {
+    exists|d: Seq<PostingAmount>| #[trigger] accepted_with(ctx, out, posts, d)
+}
